@@ -139,7 +139,8 @@ where
                     for k in 0..n {
                         let cell = (start + k) % 4096;
                         let p = Point::new((cell % 64) as i32, (cell / 64) as i32);
-                        v.push((p, palette[(k as usize) % palette.len()]));
+                        // (colour by a hash of k, not k % len: a sequence displaced by a multiple of the palette length differs)
+                        v.push((p, palette[((k.wrapping_mul(2_654_435_761) >> 16) as usize) % palette.len()]));
                     }
                     used.push(Point::new((start % 64) as i32, (start / 64) as i32));
                 }
